@@ -546,12 +546,12 @@ def run(chk):
                           "error when the reference is evaluated (strict operators), not inside a branch that is never taken")
     fnd = Findings(chk)
     directed(chk, fnd, bins, model, names)
-    stream_lookup(chk, fnd, bins, model, names, 2500 if quick else 30000)
-    stream_program(chk, fnd, bins, model, names, 150 if quick else 1500, 30 if quick else 60)
-    cases = chain_cases(chk.rng.fork("chain"), 700 if quick else 6000)
+    stream_lookup(chk, fnd, bins, model, names, 6000 if quick else 40000)
+    stream_program(chk, fnd, bins, model, names, 400 if quick else 3000, 40 if quick else 80)
+    cases = chain_cases(chk.rng.fork("chain"), 2000 if quick else 15000)
     stream_rounds(chk, fnd, bins, model, names, cases)
     stream_chain(chk, fnd, bins, model, names, cases)
-    stream_order(chk, fnd, bins, model, names, 300 if quick else 3000)
+    stream_order(chk, fnd, bins, model, names, 800 if quick else 6000)
     fnd.flush()
 
 
